@@ -174,11 +174,13 @@ Proof.
   - eapply R_f; eauto.
 Qed.
 Lemma rw_hist_R : forall st tr l t h st' o, R st tr -> rw_hist St A maxT st l t h = (st', o) ->
-  R st' (match o with OOk => EvH l t h :: tr | _ => tr end).
+  R st' (match o with OOk => EvH l t (reduced h) :: tr | _ => tr end).
 Proof.
   unfold rw_hist. intros st tr l t h st' o H E. destruct (maxT <? t).
   - inversion E; subst. exact H.
-  - eapply R_h; eauto.
+  - destruct (needs_reduce h && negb (h_redok h)).
+    + inversion E; subst. exact H.
+    + eapply R_h; eauto.
 Qed.
 Lemma rw_ex_R : forall st tr l e st' o, R st tr -> rw_ex St A maxT st l e = (st', o) ->
   R st' (match o with OOk => EvE l e :: tr | _ => tr end).
@@ -240,7 +242,7 @@ Proof.
       - destruct IH as [I1 I2]. split; [exact I1 | simpl in I2; lia].
       - exact IH. }
     destruct o; try (eexists; exact HR).
-    + destruct (count_cons_H l t h (ac_tr a)) as (C1 & C2 & C3).
+    + destruct (count_cons_H l t (reduced h) (ac_tr a)) as (C1 & C2 & C3).
       match goal with |- match v2_hists _ _ _ _ _ ?a1 with _ => _ end => specialize (IH a1) end.
       destruct (v2_hists St A maxT l r _) as [a'|st'].
       * simpl in IH. apply IH. unfold Inv; simpl. repeat split; auto; try lia.
@@ -545,7 +547,7 @@ Qed.
 Definition nonex (tr : list event) : list event :=
   filter (fun e => match e with EvE _ _ => false | _ => true end) tr.
 Definition evs_f (l : labels) (ss : list (Z * Z)) : list event := map (fun x => EvF l (fst x) (snd x)) ss.
-Definition evs_h (l : labels) (hs : list (Z * hist)) : list event := map (fun x => EvH l (fst x) (snd x)) hs.
+Definition evs_h (l : labels) (hs : list (Z * hist)) : list event := map (fun x => EvH l (fst x) (reduced (snd x))) hs.
 Definition v1_wanted (r : list ts1) : list event :=
   flat_map (fun ts => let ls := sort_labels (t1_labels ts) in
                       if valid_series ls then evs_f ls (t1_samples ts) ++ evs_h ls (t1_hists ts) else []) r.
@@ -696,7 +698,7 @@ Definition dedup (stored : list event) (e : event) : outcome :=
   | _ => OOk
   end.
 Definition w_req_mixed : req2 :=
-  mkR2 w_syms [mkTS2 [1; 2]%nat 0 0 [(10, 1); (10, 2); (20, 3)] [(30, mkH false 1 true)] [mkE2 [3; 4]%nat 11 1];
+  mkR2 w_syms [mkTS2 [1; 2]%nat 0 0 [(10, 1); (10, 2); (20, 3)] [(30, mkH false 1 true 9 true)] [mkE2 [3; 4]%nat 11 1];
                mkTS2 [3; 4]%nat 0 0 [(10, 1)] [] []].       (* second series has no metric name *)
 Lemma nonvacuous_partial_write :
   let res := handle_v2 (ideal_app dedup) w_big (mkIdeal [] []) w_req_mixed in
